@@ -1,4 +1,5 @@
 import random
+from math import ceil, floor
 from typing import Any, List, Sequence, TypeVar, cast
 
 from niltype import Nil, Nilable
@@ -24,11 +25,15 @@ class Random:
             return random.uniform(start, end)
 
         scale_factor = 10 ** precision
-        left_number = int(start * scale_factor)
-        right_number = int(end * scale_factor)
+        left_number = floor(start * scale_factor)
+        if left_number / scale_factor < start:
+            left_number += 1
+        right_number = ceil(end * scale_factor)
+        if right_number / scale_factor > end:
+            right_number -= 1
 
         result = cast(float, self.random_int(left_number, right_number) / scale_factor)
-        return round(result, precision)
+        return min(max(round(result, precision), start), end)
 
     def random_str(self, length: int, alphabet: str) -> str:
         return "".join(random.choice(alphabet) for _ in range(length))
